@@ -99,10 +99,45 @@ def _origin_block_facts(ctx, block, upto):
             break
         e = s.get("e")
         if e is None:
-            continue
+            e = s.get("init") if s.get("k") == "Let" else None
+            if e is None:
+                continue
         e = strip(e)
         if e.get("k") == "If":
             out.extend(_if_stmt_facts(ctx, e))
+        else:
+            out.extend(_result_guard_facts(ctx, e, s))
+    return out
+
+
+def _result_guard_facts(ctx, e, origin):
+    """`match X.f() { Ok(v) => .., Err(_) => <diverges> }` / `X.f()?` as (part of) a statement: past it the call did
+    not return Err, so the negation of f's Err condition holds (f a local fn of the form `if c { Err } else { Ok }`)."""
+    from .terms import err_condition
+    out = []
+    calls = []
+    if e.get("k") == "Match" and len(e.get("arms", [])) == 2:
+        arms = e["arms"]
+        for a, b in ((arms[0], arms[1]), (arms[1], arms[0])):
+            pa = a["pat"]
+            if pa.get("k") in ("TupleStruct", "Struct") and str(pa.get("path", "")).endswith("Err") and diverges(a["body"]) and not diverges(b["body"]):
+                calls.append(strip(e["scrut"]))
+    elif e.get("k") == "Try":
+        calls.append(strip(e["e"]))
+    for c in calls:
+        if c.get("k") not in ("MethodCall", "Call"):
+            continue
+        p = (c.get("impl") or c.get("fn")) if c.get("k") == "MethodCall" else ((c["f"].get("impl") or c["f"].get("fn")) if c["f"].get("k") == "Def" else None)
+        cf = ctx.pdb.fn(p) if p else None
+        if cf is None:
+            continue
+        cond = err_condition(ctx.pdb, cf)
+        if cond is None:
+            continue
+        args = ([c["recv"]] + list(c.get("args", []))) if c.get("k") == "MethodCall" else list(c.get("args", []))
+        sub = {("param", i): ctx.term(a) for i, a in enumerate(args)}
+        cc = Ctx.for_fn(ctx.pdb, cf)
+        out.extend((f, origin) for f in cond_atoms(cc, cond, False, sub))
     return out
 
 
